@@ -1340,9 +1340,62 @@ def load_ftab():
     return argc
 
 
+def run_twins(ctx):
+    """Independent ground truth for the RPN decoders: the repository holds several workbooks saved by
+    Excel in more than one format (issues.xlsx / .xls / .xlsb ...).  The xlsx twin stores the formula
+    TEXT Excel wrote; the xls / xlsb twins store tokens that calamine decodes.  Wherever both report a
+    formula at the same cell the texts must be equal.  (This differential would have caught the
+    swapped PtgGe / PtgGt table, which the spec had inherited from the code.)"""
+    import collections
+    by = collections.defaultdict(dict)
+    for e, p in vlib.fixtures(("xlsx", "xlsm", "xls", "xlsb")):
+        by[os.path.basename(p).rsplit(".", 1)[0]][e] = p
+    jobs = []
+    for b, d in sorted(by.items()):
+        x = d.get("xlsx") or d.get("xlsm")
+        if x and ("xls" in d or "xlsb" in d):
+            jobs.append((b, x, [(e, d[e]) for e in ("xls", "xlsb") if e in d]))
+    names = ctx.run_impl(["tw%d\topen\txlsx\t%s\tsheets" % (k, x) for k, (b, x, o) in enumerate(jobs)])
+    lines, meta = [], []
+    for k, (b, x, others) in enumerate(jobs):
+        a = names.get("tw%d" % k) or ""
+        if a.startswith(("openerr", "nofile")) or a in ("panic", "abort", "timeout", ""):
+            continue
+        for n in [h for h in a.split(",") if h][:12]:
+            lid = "tx%d" % len(lines)
+            lines.append("%s\topen\txlsx\t%s\tformula %s" % (lid, x, n))
+            for e, p in others:
+                lid2 = "tx%d" % len(lines)
+                lines.append("%s\topen\t%s\t%s\tformula %s" % (lid2, e, p, n))
+                meta.append((b, n, e, p, lid, lid2))
+    ans = ctx.run_impl(lines)
+    def cells(txt):
+        pr = vlib.parse_range(txt or "")
+        if pr is None or isinstance(pr, str):
+            return {}
+        (sr, sc), _, rows = pr
+        return {(sr + i, sc + j): v for i, row in enumerate(rows) for j, v in enumerate(row) if v}
+    for b, n, e, p, lx, lo in meta:
+        fx, fo = cells(ans.get(lx)), cells(ans.get(lo))
+        common = [q for q in fx if q in fo]
+        ctx.traces += 1
+        ctx.count("twins:" + e)
+        ctx.count("twin_formula_cells", len(common))
+        for q in common:
+            if fx[q] != fo[q]:
+                ctx.violations.append({"case": "open %s %s formula %s (cell %s) vs its xlsx twin" % (e, p, vlib.unhexs(n), q),
+                                       "expected": vlib.unhexs(fx[q]), "actual": vlib.unhexs(fo[q]), "model": "",
+                                       "what": "the %s twin of %s.xlsx decodes the formula of cell %s differently from the text Excel stored in the xlsx twin" % (e, b, q)})
+                break
+        else:
+            if common:
+                ctx.nontrivial("twin|%s|%s|%s" % (b, e, n))
+
+
 def run(ctx):
     argc = load_ftab()
     corpus(ctx)
+    run_twins(ctx)
     run_columns(ctx)
     run_a1(ctx)
     seeds = {"xls": [], "xlsb": []}
